@@ -370,26 +370,76 @@ impl Array4 {
                 }
                 let slot = get_slot(coupon) & ((1 << lg_config_k) - 1);
                 let value = get_value(coupon);
+                if aux.get(slot).is_some() {
+                    return Err(Error::deserial(format!(
+                        "aux map lists slot {slot} more than once"
+                    )));
+                }
                 aux.insert(slot, value);
             }
             aux_map = Some(aux);
         }
 
         // Create estimator and restore state
-        let mut estimator = HipEstimator::new(lg_config_k);
-        estimator.set_hip_accum(hip_accum);
-        estimator.set_kxq0(kxq0);
-        estimator.set_kxq1(kxq1);
-        estimator.set_out_of_order(ooo);
+        let estimator = HipEstimator::from_image(lg_config_k, hip_accum, kxq0, kxq1, ooo)?;
 
-        Ok(Self {
+        let array = Self {
             lg_config_k,
             bytes: data.into_boxed_slice(),
             cur_min,
             num_at_cur_min,
             aux_map,
             estimator,
-        })
+        };
+        array.check_image_consistency()?;
+        Ok(array)
+    }
+
+    /// The update path relies on cur_min, num_at_cur_min, the nibbles and the aux map agreeing
+    /// with each other; an image where they do not cannot come from a sketch.
+    fn check_image_consistency(&self) -> Result<(), Error> {
+        const MAX_VALUE: u32 = 63;
+        if self.cur_min as u32 > MAX_VALUE {
+            return Err(Error::deserial(format!("invalid cur_min {}", self.cur_min)));
+        }
+        let mut at_cur_min = 0u32;
+        let mut tokens = 0usize;
+        for slot in 0..(1u32 << self.lg_config_k) {
+            let raw = self.get_raw(slot);
+            if raw == 0 {
+                at_cur_min += 1;
+            }
+            if raw == AUX_TOKEN {
+                tokens += 1;
+                let value = self.aux_map.as_ref().and_then(|aux| aux.get(slot));
+                match value {
+                    Some(v)
+                        if (v as u32) >= self.cur_min as u32 + 15 && (v as u32) <= MAX_VALUE => {}
+                    _ => {
+                        return Err(Error::deserial(format!(
+                            "slot {slot} is marked as an exception but has no valid aux entry"
+                        )));
+                    }
+                }
+            } else if self.cur_min as u32 + raw as u32 > MAX_VALUE {
+                return Err(Error::deserial(format!(
+                    "slot {slot} holds a value above {MAX_VALUE}"
+                )));
+            }
+        }
+        if at_cur_min != self.num_at_cur_min {
+            return Err(Error::deserial(format!(
+                "num_at_cur_min is {} but {at_cur_min} slots are at cur_min",
+                self.num_at_cur_min
+            )));
+        }
+        let aux_entries = self.aux_map.as_ref().map_or(0, |aux| aux.iter().count());
+        if aux_entries != tokens {
+            return Err(Error::deserial(format!(
+                "{aux_entries} aux entries for {tokens} exception slots"
+            )));
+        }
+        Ok(())
     }
 
     /// Serialize Array4 to bytes
